@@ -32,9 +32,22 @@ pub enum Cb {
     Hash = 5,
     Fmt = 6,
     Closure = 7,
+    /// the payload's destructor (armed only while a handle is being released by a `drop` op)
+    Drop = 8,
 }
-pub const NCB: usize = 8;
-pub const CB_NAMES: [&str; NCB] = ["iter.next", "iter.len", "iter.size_hint", "clone", "cmp", "hash", "fmt", "closure"];
+pub const NCB: usize = 9;
+pub const CB_NAMES: [&str; NCB] = ["iter.next", "iter.len", "iter.size_hint", "clone", "cmp", "hash", "fmt", "closure", "drop"];
+
+thread_local! {
+    static DROP_CTX: std::cell::Cell<bool> = const { std::cell::Cell::new(false) };
+}
+/// Destructor panics are injected only inside this scope (the release of a handle by `drop`).
+pub fn set_drop_ctx(on: bool) -> bool {
+    DROP_CTX.with(|c| c.replace(on))
+}
+fn drop_ctx() -> bool {
+    DROP_CTX.try_with(|c| c.get()).unwrap_or(false)
+}
 pub fn cb_from_name(s: &str) -> Option<Cb> {
     let i = CB_NAMES.iter().position(|&n| n == s)?;
     Some(unsafe { std::mem::transmute::<u8, Cb>(i as u8) })
@@ -236,6 +249,9 @@ fn on_drop(raw: u32, width: usize, shape: &'static str) {
         ),
     }
     sim::access(Space::Ident, raw, Access::Drop);
+    if drop_ctx() && !std::thread::panicking() {
+        callback(Cb::Drop);
+    }
 }
 
 /// Called by every callback; panics if the fault plan says so.
@@ -450,6 +466,9 @@ impl Drop for Z0 {
         });
         if live < 0 {
             triomphe_verif_rt::violation("double-drop", "more zero-sized payloads destroyed than were ever created".into());
+        }
+        if drop_ctx() && !std::thread::panicking() {
+            callback(Cb::Drop);
         }
     }
 }
